@@ -11,7 +11,7 @@ from ..worldprop import base_outcome, completion
 
 np = sut.np
 ID = "C16"
-RUNS = {"quick": 2500, "thorough": 60000}
+RUNS = {"quick": 1600, "thorough": 60000}
 BUDGET = {"quick": 50, "thorough": 800}
 CHUNK = 40
 DET_EVERY = 60
@@ -23,8 +23,9 @@ RULE = ("site in {caltech, jpl, office001} x basic/real EVSEs x generated transf
         "non-trivial = a feasible schedule within 1% of a transformer limit; distinct = (site, EVSE type, capacity bucket, "
         "climb order kind, which transformer saturates)")
 PROBES = ["climb", "within_1pct_of_transformer", "concentrated_phase_pair", "sim_world", "sim_columns_checked",
-          "jpl_first_floor_saturated", "jpl_third_fourth_saturated", "pod_or_panel_binding", "evse_limited_climb", "int_dtype_probe"]
-FAULT_DIMENSION = "none - saturated-state distribution only"
+          "jpl_first_floor_saturated", "jpl_third_fourth_saturated", "pod_or_panel_binding", "evse_limited_climb", "int_dtype_probe", "json_restart", "multi_period_probe",
+          "multi_period_reported_feasible"]
+FAULT_DIMENSION = "restart only (site network saved to JSON and loaded before probing); otherwise saturated-state distribution"
 REAL_VS_STUB = "real: caltech_acn / jpl_acn / office001_acn, Current algebra, ChargingNetwork.is_feasible, sorted algorithm + Simulator in the in-simulation layer"
 ASSUMPTIONS = ["external truth: which EVSEs sit behind which transformer (Caltech/Office001: all; JPL: AG-1F* vs AG-3F*/AG-4F*), "
                "pod / sub-panel / panel ratings 80 / 100 / 225 A and their membership (as stated in the site files' comments)",
@@ -45,7 +46,7 @@ def gen(rs, tier):
     else:
         kw["first_transformer_cap"] = r.choice([45, 45, 30, round(r.uniform(15, 70), 1)])
         kw["third_fourth_transformer_cap"] = r.choice([150, 150, 100, round(r.uniform(50, 220), 1)])
-    sc = {"seed": rs, "site": site, "site_kwargs": kw, "mode": "sim" if rs % 6 == 0 else "climb",
+    sc = {"seed": rs, "site": site, "site_kwargs": kw, "mode": "sim" if rs % 6 == 0 else "climb", "json_restart": r.random() < 0.3,
           "climbs": r.randint(2, 4), "sort": r.choice(["fcfs", "lcfs", "llf", "edf", "lrpt"])}
     return sc
 
@@ -190,8 +191,16 @@ def check(sc):
     with warnings.catch_warnings():
         warnings.simplefilter("ignore")
         nw = build_network({"kind": sc["site"], "site_kwargs": sc["site_kwargs"]})
+        if sc.get("json_restart"):
+            # restart: the site network is saved to JSON and loaded; everything below runs on the loaded object
+            reg = list(nw.station_ids)
+            nw = type(nw).from_json(nw.to_json())
+            out.probe("json_restart")
+            if list(nw.station_ids) != reg:
+                out.add("C16/station_order_after_load", "%s: loaded network lists stations %s..., built order %s..." % (sc["site"], list(nw.station_ids)[:5], reg[:5]))
         ids = nw.station_ids
-        structural(out, nw, sc["site"], sc["site_kwargs"], ids)
+        if not out.viol:
+            structural(out, nw, sc["site"], sc["site_kwargs"], ids)
         best = {}
         kinds = []
         for c in range(sc["climbs"]):
@@ -208,6 +217,25 @@ def check(sc):
                 best[k] = max(best.get(k, 0), v)
             if all(abs(v - m) < 1e-9 for v, m in zip(vec, nw.max_pilot_signals)):
                 out.probe("evse_limited_climb")
+            # multi-period schedules: the saturated point next to lighter and heavier columns, in random positions; if the
+            # network calls the whole schedule feasible, every one of its columns must respect the physical bounds
+            if not out.viol:
+                mx = [float(m) for m in nw.max_pilot_signals]
+                cols = [[0.0] * len(vec), [0.5 * v for v in vec], list(vec), [min(1.3 * v + 2.0, m) for v, m in zip(vec, mx)],
+                        [min(0.9 * v, m) for v, m in zip(vec, mx)]]
+                T = r.choice([3, 4, 5])
+                pick = [r.randrange(len(cols)) for _ in range(T)]
+                if r.random() < 0.7 and 3 not in pick:
+                    pick[r.randrange(T)] = 3
+                M = np.array([[cols[j][k] for j in pick] for k in range(len(vec))], dtype=float)
+                out.probe("multi_period_probe")
+                if bool(nw.is_feasible(M)):
+                    out.probe("multi_period_reported_feasible")
+                    for pos, j in enumerate(pick):
+                        check_schedule(out, nw, sc["site"], sc["site_kwargs"], ids, cols[j],
+                                       "column %d of a %d-period schedule reported feasible (hill climb %d, %s)" % (pos, T, c, kind), feasible_known=True)
+                        if out.viol:
+                            break
             # the same point rounded up/down to whole amps, handed over as an *integer-dtype* matrix
             for rnd, nm in ((math.ceil, "ceil"), (math.floor, "floor")):
                 iv = [int(min(rnd(v), m)) for v, m in zip(vec, nw.max_pilot_signals)]
